@@ -367,11 +367,25 @@ pub fn run_script(script: &Script, tag: &str, watchdog: Duration) -> SessionResu
             Cmd::Position(root) => {
                 if r.model.outstanding.is_some() {
                     if r.model.infinite {
-                        // an unbounded search is certainly still running: the command must be refused
+                        // While a search is running the command must be refused. A `go infinite`
+                        // can nevertheless end by itself (single reply, forced mate seen, depth
+                        // cap on a tiny position): then the command is honoured, and the bestmove
+                        // of the finished search is on its way. Only "accepted, and no bestmove
+                        // ever comes" shows that a running search was ignored.
                         r.sess.send(&cmd.text());
                         if let Some(seen) = r.sync("position during go infinite") {
-                            if !seen.iter().any(|l| l.starts_with("error")) {
-                                r.model.faults.push(("position-during-search".into(), "position sent during go infinite was not refused".into()));
+                            let refused = seen.iter().any(|l| l.starts_with("error"));
+                            if !refused {
+                                if r.model.outstanding.is_some() {
+                                    r.pump_until(Duration::from_secs(3), |m, _| m.outstanding.is_none());
+                                }
+                                if r.model.outstanding.is_some() {
+                                    r.model.faults.push(("position-during-search".into(),
+                                        "position sent during a running go infinite was not refused (and the search had not ended: no bestmove followed)".into()));
+                                } else {
+                                    // the search had ended by itself; the engine now holds the new position
+                                    r.model.pos = Some(root.clone());
+                                }
                             }
                         }
                     }
